@@ -33,6 +33,6 @@ def jobs(tier):
           'opm/input/eclipse/Units/%s.cpp' % n for n in ('UnitSystem', 'Dimension')] + [
           'opm/common/%s.cpp' % n for n in ('OpmLog/OpmLog', 'OpmLog/Logger', 'OpmLog/LogUtil', 'OpmLog/KeywordLocation', 'utility/OpmInputError', 'utility/String', 'utility/shmatch')] + ['opm/input/eclipse/Python/Python.cpp', 'opm/input/eclipse/Python/PythonInterp.cpp', '_build/ParserKeywords/I.cpp', '_build/ParserKeywords/P.cpp', '_build/ParserKeywords/D.cpp', '_build/ParserKeywords/E.cpp', '_build/ParserKeywords/T.cpp']
     for kw in PARSE_KWS:
-        out.append(dict(name='parse_' + kw.lower(), src='h_parse.cpp', defs={'HN': 3 if (tier == 'quick' or kw == 'TITLE') else 4, 'KWID': {'INCLUDE': 0, 'PATHS': 1, 'FIRSTLINE': 2, 'DIMENS': 3, 'TITLE': 4, 'PORO': 5}[kw]}, entry='h_parse_builtin', tus=PT, fp='ieee' if kw == 'PORO' else 'real', loopmax=2000, maxsteps=400000000, timeout=900 if tier == 'quick' else 7200, opts=['--ctors'],
+        out.append(dict(name='parse_' + kw.lower(), src='h_parse.cpp', defs={'HN': 3 if (tier == 'quick' or kw in ('TITLE', 'PORO')) else 4, 'KWID': {'INCLUDE': 0, 'PATHS': 1, 'FIRSTLINE': 2, 'DIMENS': 3, 'TITLE': 4, 'PORO': 5}[kw]}, entry='h_parse_builtin', tus=PT, fp='ieee' if kw == 'PORO' else 'real', loopmax=2000, maxsteps=400000000, timeout=900 if tier == 'quick' else 7200, opts=['--ctors'],
                         bounds='Parser(false).parseString("%s\\n" + <= 3 (thorough: 4; TITLE: 3 - four bytes ran for more than 80 minutes without finishing) arbitrary bytes + "\\n")' % kw))
     return out
